@@ -61,6 +61,7 @@ func NewAdversary(w *World, p *Profile) *Adversary {
 		{"badBlock", 4, a.badBlock},
 		{"honestLike", 6, a.honestLike},
 		{"crossInstance", 5, a.crossInstance},
+		{"corruptNested", 3, a.corruptNested},
 	}
 	for i := range a.strat {
 		if p.AdvWeights != nil {
@@ -1176,4 +1177,33 @@ func (a *Adversary) otherInstanceProof(h, pv uint64, blk *spi.Blk) *ref.Proof {
 		}
 	}
 	return p
+}
+
+
+// corruptNested: a NEW_VIEW / VIEW_CHANGE seen on the wire with a corrupted offset deep inside its nested parts (the
+// top-level fields still read fine), sent to nodes at its height and to nodes still below it (future cache).
+func (a *Adversary) corruptNested(h uint64) bool {
+	w := a.w
+	var src *Flight
+	for try := 0; try < 12 && src == nil && len(w.Seen) > 0; try++ {
+		f := w.Seen[a.r.Intn(len(w.Seen))]
+		if f.Msg != nil && (f.Msg.Env == ref.EnvNV || (f.Msg.Env == ref.EnvVC && f.Msg.Vote.Proof != nil)) && len(f.Raw.Content) > 80 && f.Msg.H <= w.Cfg.MaxH {
+			src = f
+		}
+	}
+	if src == nil {
+		return false
+	}
+	b := append([]byte{}, src.Raw.Content...)
+	i := 40 + a.r.Intn(len(b)-44)
+	b[i], b[i+1], b[i+2], b[i+3] = 0xff, 0xff, 0xff, 0xff
+	raw := &interfaces.ConsensusRawMessage{Content: b, Block: src.Raw.Block}
+	from := src.From
+	for _, id := range w.Order {
+		n := w.Nodes[id]
+		if uint64(n.St.Height()) <= src.Msg.H && a.r.Intn(2) == 0 {
+			a.sendRaw(from, id, raw)
+		}
+	}
+	return true
 }
